@@ -37,7 +37,7 @@ import (
 
 // ------------------------------------------------------------------ parent (stream conc.race)
 
-var typeSets = []string{"shared", "recursive", "disjoint", "generated", "mixed"}
+var typeSets = []string{"shared", "recursive", "disjoint", "generated", "mixed", "failing", "mutual"}
 
 type raceImpl struct {
 	child      string
@@ -214,6 +214,13 @@ func (r *raceImpl) Exec(h *vh.H, op string) string {
 		case strings.HasPrefix(line, "DEADLOCK"):
 			r.deadlocked = true
 			fail("deadlock", tail(stdout.String(), 1800))
+		case strings.HasPrefix(line, "STATS "):
+			var e, q, st int
+			if n, _ := fmt.Sscanf(line, "STATS %d %d %d", &e, &q, &st); n == 3 {
+				h.CountN("calls.schema-error-alone-and-concurrent", e)
+				h.CountN("calls.QueryToProto", q)
+				h.CountN("rounds.stampede-on-one-type", st)
+			}
 		case strings.HasPrefix(line, "DONE "):
 			calls, _ = strconv.Atoi(strings.TrimPrefix(line, "DONE "))
 		}
@@ -226,6 +233,7 @@ func (r *raceImpl) Exec(h *vh.H, op string) string {
 	}
 	h.CountN("calls", calls)
 	h.Count("children." + p[3] + "." + p[4])
+	h.Count("set." + p[3])
 	h.Count("goroutines." + p[2])
 	if calls > 0 {
 		h.Nontrivial(op)
@@ -270,9 +278,13 @@ func compiled(ms ...proto.Message) []*target {
 	return out
 }
 
-func generated(rng *rand.Rand) []*target {
-	for try := 0; try < 20; try++ {
-		g, _ := genGraph(rng)
+// generated draws descriptor graphs (dynamicpb messages) until `want` accepts one.
+func generated(rng *rand.Rand, want func(g Graph, style int) bool) []*target {
+	for try := 0; try < 400; try++ {
+		g, style := genGraph(rng)
+		if want != nil && !want(g, style) {
+			continue
+		}
 		descs, index, err := buildDescriptors(g, true)
 		if err != nil {
 			continue
@@ -307,11 +319,43 @@ func pickTargets(set string, rng *rand.Rand) []*target {
 	case "disjoint":
 		return disjoint
 	case "generated":
-		return generated(rng)
+		return generated(rng, nil)
+	case "failing":
+		// a failing member (schema error: unsupported google type, non-string map key, enum without
+		// *_UNSPECIFIED) that other, good, types share sub-schemas with: the roll-back of the failed
+		// build runs while other goroutines look the shared types up; plus good compiled-in types
+		return append(generated(rng, hasFailingWithSharing), shared[:3]...)
+	case "mutual":
+		// rings with back edges: self and mutual recursion, first use from every goroutine at once
+		return append(generated(rng, func(g Graph, style int) bool { return style == 1 && len(g) >= 3 }), recursive[:3]...)
 	default:
 		all := append(append(shared, recursive[:6]...), compiled(&foo_testpb.FooState{}, &foo_testpb.FooEvent{}, &foo_testspb.ListFoosRequest{})...)
-		return append(all, generated(rng)...)
+		return append(all, generated(rng, nil)...)
 	}
+}
+
+// hasFailingWithSharing: some message fails to build (a bad field or a reference to a failing
+// enum) and at least two nodes hold references.
+func hasFailingWithSharing(g Graph, _ int) bool {
+	failing, refs := false, 0
+	for _, n := range g {
+		if !n.Ok {
+			failing = true
+		}
+		hasRef := false
+		for _, f := range n.Fields {
+			if f.Base == 'x' {
+				failing = true
+			}
+			if f.Base == 'r' {
+				hasRef = true
+			}
+		}
+		if hasRef {
+			refs++
+		}
+	}
+	return failing && refs >= 2 && len(g) >= 3
 }
 
 func populate(rng *rand.Rand, m protoreflect.Message, depth int) {
@@ -556,7 +600,7 @@ func childMain(args []string) {
 		os.Exit(2)
 	}
 	rng := rand.New(rand.NewPCG(seed, 0xc0c10))
-	total := 0
+	total, errCalls, queryCalls, stampedes := 0, 0, 0, 0
 	for round := 0; round < rounds; round++ {
 		ts := pickTargets(set, rng)
 		if len(ts) == 0 {
@@ -590,6 +634,15 @@ func childMain(args []string) {
 				}
 			}
 			rng.Shuffle(len(plans[g]), func(a, b int) { plans[g][a], plans[g][b] = plans[g][b], plans[g][a] })
+		}
+		if rng.IntN(2) == 0 {
+			// stampede: every goroutine's first call is on the same type (its very first use), by a
+			// different entry point per goroutine
+			t0 := rng.IntN(len(ts))
+			stampedes++
+			for g := range plans {
+				plans[g] = append([]call{{t0, "edqs"[g%4]}}, plans[g]...)
+			}
 		}
 		results := make([][]string, n)
 		start := make(chan struct{})
@@ -638,6 +691,12 @@ func childMain(args []string) {
 					expect[c] = want
 				}
 				got := results[g][i]
+				if strings.HasPrefix(want, "err") {
+					errCalls++
+				}
+				if c.kind == 'q' {
+					queryCalls++
+				}
 				if got == want {
 					continue
 				}
@@ -655,6 +714,7 @@ func childMain(args []string) {
 			}
 		}
 	}
+	fmt.Printf("STATS %d %d %d\n", errCalls, queryCalls, stampedes)
 	fmt.Printf("DONE %d\n", total)
 }
 
